@@ -24,7 +24,8 @@ RULE = ("h1: valid generated responses mutated (status line, version, header lin
         "stream id, payload, bit flips, drop, duplicate, truncate) or 32 kinds of hand-built illegal frames injected before/"
         "after frame k, for GET and POST and multi-frame bodies; SOCKS5: every reply stage x random/mutated/truncated replies; "
         "CONNECT: mutated replies; back-end: every op x fault kind on 13 connection types; caller: body/Content-Length "
-        "mismatches; hostile concurrent workloads; distinct+non-trivial = (stage, mutation kind, outcome class)")
+        "mismatches; hostile concurrent workloads; real-socket tier: SyncBackend / AnyIOBackend / TrioBackend against 13 loopback "
+        "server behaviours (refuse, close, RST, stall, partial response, TLS garbage / untrusted / stalled ...); distinct+non-trivial = (stage, mutation kind, outcome class)")
 ASSUMPTIONS = ["the peer always ends its input (EOF 0.5 virtual seconds after its last byte), so a hang is a verdict",
                "documented set taken from docs/exceptions.md / httpcore.__all__"]
 REQUIRED = ["inputs", "oracle_documented", "oracle_class", "oracle_no_hang", "outcome_ok", "outcome_remote_protocol_error",
@@ -385,7 +386,41 @@ async def part_workload(flavor, case, J):
             pass
 
 
-PARTS = {"h1": part_h1, "h2": part_h2, "socks": part_socks, "connect": part_connect, "caller": part_caller,
+def part_realsock(flavor, case, J):
+    """Real sockets, real back-ends (not simulated): exception class per provoked cause."""
+    from .. import realsock
+    cnt = J.cnt
+    backend = case["backend"]
+    for b in realsock.BEHAVIOURS:
+        res = realsock.run_one(backend, b)
+        if res.get("outcome") == "n/a":
+            continue
+        cnt["inputs"] += 1
+        cnt["real_socket_runs"] += 1
+        cnt["oracle_documented"] += 1
+        want = realsock.EXPECT[b]
+        ctx = {"backend": backend, "behaviour": b, "server_accepted": res.get("accepted")}
+        exc = res.get("exc")
+        J.sigs.add(f"realsock|{backend}|{b}|{res.get('outcome') if exc is None else type(exc).__name__}")
+        if b != "refuse" and not res.get("accepted"):
+            continue  # the provocation did not happen: inconclusive for this case, not a verdict
+        if want is None:
+            if res.get("outcome") != "ok":
+                J.v(f"realsock:request-failed:{backend}:{b}", f"{exc!r}", ctx)
+        elif want == "cancelled":
+            if res.get("outcome") != "cancelled":
+                J.v(f"realsock:cancel-not-delivered:{backend}", f"{res.get('outcome')} {exc!r}", ctx)
+        elif exc is None:
+            pass  # the failure was not provoked (timing): inconclusive
+        elif not documented(exc):
+            J.v(f"undocumented:realsock:{backend}:{exc_name(exc)}", f"{b}: {exc!r}", ctx)
+        else:
+            cnt["oracle_class"] += 1
+            if not isinstance(exc, want):
+                J.v(f"wrong-class:realsock:{backend}:{b}:{type(exc).__name__}", f"{b}: {exc!r}; expected one of {[w.__name__ for w in want]}", ctx)
+
+
+PARTS = {"realsock": part_realsock, "h1": part_h1, "h2": part_h2, "socks": part_socks, "connect": part_connect, "caller": part_caller,
          "backend": part_backend, "workload": part_workload}
 
 
@@ -393,7 +428,12 @@ def run_case(case):
     flavor = case["flavor"]
     viol = []
     cnt = {k: 0 for k in REQUIRED}
+    cnt["real_socket_runs"] = 0
     J = Judge(cnt, viol)
+    if case["part"] == "realsock":
+        part_realsock(flavor, case, J)
+        sample = {"part": "realsock", "backend": case["backend"], "signatures": sorted(J.sigs)[:14]}
+        return {"viol": viol, "counters": cnt, "sigs": sorted(J.sigs), "sample": sample}
 
     async def main():
         await PARTS[case["part"]](flavor, case, J)
@@ -418,6 +458,8 @@ def plan(tier, seed):
             k += 1
     for f in flavors:
         cases.append({"part": "caller", "flavor": f, "seed": 0})
+    for be in ("sync", "anyio", "trio"):
+        cases.append({"part": "realsock", "flavor": "sync", "backend": be, "seed": 0})
     for i, ctype in enumerate(TYPES):
         for shape in (["get"] if q else ["get", "post3", "stream-partial"]):
             cases.append({"part": "backend", "flavor": flavors[i % 3], "ctype": ctype, "shape": shape, "seed": 0})
